@@ -125,7 +125,7 @@ def register(M):
         if isinstance(v, tuple):
             return st.alloc(SList.of(list(v)))
         if isinstance(v, SDict):
-            return M.list_of_set(v.dom, st)
+            return M.dict_keys_list(v, st)
         raise Unsupported('list(%r)' % (type(v),))
     B['list'] = b_list
 
@@ -335,6 +335,15 @@ def register(M):
                     w = len(pv.elem.elts)
                     kind = 'float' if any(isinstance(t, TReal) for t in pv.elem.elts) else 'int'
                     return SArr((pv.n, w), lambda i, j: cast(_tuple_sel(pv.get(i), j), kind), kind)
+            if isinstance(pv.elem, TList) and isinstance(pv.elem.elem, (TInt, TReal, TBool)):
+                # list of rows that are lists of scalars: a 2-D array iff there is at least one row and all rows have one length
+                # (an empty list gives a 1-D array of length 0, ragged rows an error / object array: excluded by obligation)
+                w = st.deref(pv.get(0)).n
+                k = bvar('k')
+                ex.oblige(st, 'shape', AND(Z(pv.n) >= 1, forall([k], IMPLIES(in_range(k, 0, pv.n), Z(st.deref(pv.get(k)).n) == Z(w)))), None,
+                          text='np.array of a non-empty list of equal-length rows')
+                kind = 'float' if isinstance(pv.elem.elem, TReal) else ('bool' if isinstance(pv.elem.elem, TBool) else 'int')
+                return SArr((pv.n, w), lambda i, j: cast(st.deref(pv.get(i)).get(j), kind), kind)
             if isinstance(pv.elem, TArr):
                 e = pv.elem
                 first = pv.get(0)
